@@ -148,6 +148,12 @@ def observe(case):
     key = core.case_key(case)
     if key in _OBS:
         return _OBS[key]
+    if case.get("prime"):
+        # history independence: the same reconciliation, rebuilt, is drawn first with other wrap widths in this
+        # very process; whatever the package remembers from that drawing must not leak into the one observed
+        pc = {k: v for k, v in case.items() if k != "prime"}
+        pc["ewidth"], pc["swidth"] = case["prime"]
+        observe(pc)
     I = _impl()
     R, tex = I["R"], I["tex"]
     sidx, oidx = {}, {}
@@ -564,7 +570,8 @@ def decorate(rng, sshape, oshape, mapping, labelled, vertical):
                 "kids": [ob(k, p + (i,), syn) for i, k in enumerate(shape)]}
     w = lambda: None if rng.random() < 0.08 else rng.randint(1, 30)
     return {"species": sp(sshape), "object": ob(oshape, (), None), "labelled": labelled, "vertical": vertical,
-            "ewidth": w(), "swidth": w(), "size_seed": rng.randrange(1 << 30)}
+            "ewidth": w(), "swidth": w(), "size_seed": rng.randrange(1 << 30),
+            "prime": [w(), w()] if rng.random() < 0.35 else None}
 
 
 def render_cases(ctx):
